@@ -1,6 +1,6 @@
 """Models of the std/alloc/core functions the interpreted findutils code calls (documented behaviour only)."""
 import re, z3
-from interp import (BoxObj, Enum, Opaque, Ptr, RStr, RustPanic, SliceRef, Struct, Tuple, UNIT, Unsupported, VecObj)
+from interp import (type_key, BoxObj, Enum, Opaque, Ptr, RStr, RustPanic, SliceRef, Struct, Tuple, UNIT, Unsupported, VecObj)
 
 EXACT, PATTERNS = {}, []
 
@@ -98,7 +98,7 @@ def _str_is_empty(m, args, raw):
 
 
 @model("<str as ToString>::to_string", "<String as Deref>::deref", "String::as_str", "<str as ToOwned>::to_owned", "<String as Clone>::clone",
-       "<&str as ToString>::to_string", "<String as From>::from")
+       "<&str as ToString>::to_string", "^<String as From(<.*>)?>::from$")
 def _str_identity(m, args, raw):
     return deref(args[0])
 
@@ -258,7 +258,14 @@ def _result_branch(m, args, raw):
 @model("^<Result<.*> as FromResidual>::from_residual$")
 def _from_residual(m, args, raw):
     r = args[0]
-    return Err(r.fields[0])
+    e = r.fields[0]
+    # `?` converts the error with From when the two error types differ
+    mt = re.match(r"^<Result<.*, ([^,<>]+(?:<.*>)?)> as FromResidual<Result<(?:std::convert::)?Infallible, (.+)>>>::from_residual$", raw)
+    if mt:
+        dst, src = mt.group(1).strip(), mt.group(2).strip()
+        if type_key(dst) != type_key(src):
+            return Err(m.call("<%s as From<%s>>::from" % (dst, src), [e]))
+    return Err(e)
 
 
 @model("^<Option<.*> as Try>::branch$")
@@ -282,7 +289,7 @@ def _fmt(m, args, raw):
     return Opaque("fmt")
 
 
-@model("^<Box<dyn Error> as From>::from$")
+@model("^<Box<dyn Error> as From(<.*>)?>::from$")
 def _err_from(m, args, raw):
     a = deref(args[0])
     return BoxObj(Opaque("error: %s" % (a.text if isinstance(a, RStr) and a.text else "formatted")))
@@ -317,3 +324,118 @@ def _dyn_matcher(m, args, raw):
     if fn is None:
         raise Unsupported("no impl for " + key)
     return m.run(fn, [self_ref] + args[1:])
+
+
+# ----------------------------------------------------------------------------------------------- more slices / iterators / OsStr (xargs)
+class OsVal:
+    """an OsString/OsStr value known only by an identity and a (possibly symbolic) byte length"""
+    __slots__ = ("ident", "length")
+
+    def __init__(self, ident, length):
+        self.ident, self.length = ident, length
+
+    def __repr__(self):
+        return "os#%s" % (self.ident,)
+
+
+class BytesRef:
+    __slots__ = ("length",)
+
+    def __init__(self, length):
+        self.length = length
+
+
+@model("slice::split_at_mut", "slice::split_at")
+def _split_at(m, args, raw):
+    items, a, b = as_list(args[0])
+    k = args[1]
+    if a + k > b:
+        raise RustPanic("split_at out of range")
+    return Tuple([SliceRef(items, a, a + k), SliceRef(items, a + k, b)])
+
+
+@model("^<Vec<.*> as Index(Mut)?>::index(_mut)?$", "^<\\[.*\\] as Index(Mut)?>::index(_mut)?$")
+def _seq_index_range(m, args, raw):
+    items, a, b = as_list(args[0])
+    r = args[1]
+    if "RangeFull" in raw:
+        return SliceRef(items, a, b)
+    if isinstance(r, Struct) and r.ty in ("RangeFrom", "RangeTo", "Range", "RangeInclusive"):
+        lo, hi = a, b
+        if r.ty == "RangeFrom":
+            lo = a + r.fields[0]
+        elif r.ty == "RangeTo":
+            hi = a + r.fields[0]
+        elif r.ty == "Range":
+            lo, hi = a + r.fields[0], a + r.fields[1]
+        if not (a <= lo <= hi <= b):
+            raise RustPanic("range %r out of bounds for a sequence of length %d" % (r, b - a))
+        return SliceRef(items, lo, hi)
+    if isinstance(r, int):
+        if not (0 <= r < b - a):
+            raise RustPanic("index out of bounds")
+        return Ptr(items, a + r)
+    raise Unsupported(raw)
+
+
+@model("<Iter as Iterator>::map", "<IntoIter as Iterator>::map")
+def _iter_map(m, args, raw):
+    mc = re.search(r"\{closure@[^}]*\}", raw)
+    if mc:
+        return Struct("MapIter", [deref(args[0]), mc.group(0), args[1]])
+    mf = re.search(r"\{([^{}]+)\}>$", raw)          # a function item used as the mapping function
+    return Struct("MapIter", [deref(args[0]), "fn:" + mf.group(1) if mf else None, args[1]])
+
+
+@model("<Map as Iterator>::collect")
+def _map_collect(m, args, raw):
+    mp = deref(args[0])
+    it, clos, env = mp.fields
+    items, pos, end = it.fields
+    out = VecObj()
+    if clos and clos.startswith("fn:"):
+        while pos < end:
+            elem = Ptr(items, pos) if it.ty == "SliceIter" else items[pos]
+            out.items.append(m.call(clos[3:], [elem]))
+            pos += 1
+        return out
+    fn = m.index.get(clos)
+    if fn is None:
+        raise Unsupported("closure %s" % clos)
+    while pos < end:
+        elem = Ptr(items, pos) if it.ty == "SliceIter" else items[pos]
+        out.items.append(m.run(fn, [Ptr([env], 0), elem]))
+        pos += 1
+    return out
+
+
+@model("<OsString as Deref>::deref", "<OsStr as OsStrExt>::as_bytes", "OsString::as_os_str", "<OsString as AsRef>::as_ref", "<OsStr as ToOwned>::to_owned",
+       "<OsString as Clone>::clone")
+def _os_views(m, args, raw):
+    v = deref(args[0])
+    if raw.endswith("as_bytes"):
+        return BytesRef(v.length)
+    return v
+
+
+@model("^<dyn (\\w+) as \\1>::\\w+$")
+def _dyn_any(m, args, raw):
+    mt = re.match(r"^<dyn (\w+) as \w+>::(\w+)$", raw)
+    trait, method = mt.group(1), mt.group(2)
+    recv = deref(args[0])
+    if isinstance(recv, BoxObj):
+        recv = recv.cell[0]
+    key = "<%s as %s>::%s" % (recv.ty, trait, method)
+    self_ref = args[0] if isinstance(deref(args[0]), (Struct, Enum)) else Ptr([recv], 0)
+    if key in m.natives:
+        return m.natives[key](m, [self_ref] + args[1:])
+    fn = m.index.get(key) or m.index.get("%s::%s" % (trait, method))
+    if fn is None:
+        raise Unsupported("no impl for " + key)
+    return m.run(fn, [self_ref] + args[1:])
+
+
+@model("^<\\w+ as PartialEq>::ne$")
+def _derived_ne(m, args, raw):
+    r = m.call(raw[:-2] + "eq", args)
+    return (not r) if isinstance(r, bool) else z3.Not(r)
